@@ -22,7 +22,7 @@ import threading
 
 import common
 
-KEY = {"buf": "buffer", "bio": "bufferedio", "srw": "streamreader", "sio": "streamable-io",
+KEY = {"buf": "buffer", "bio": "bufferedio", "srw": "streamreader", "sio": "streamable-io", "ice2": "icecast",
        "ssw": "streamable-source", "ice": "icecast"}
 COQKIND = {"buf": "KBuf", "bio": "KBio", "srw": "KSrw", "sio": "KSio", "ssw": "KSsw"}
 KNOWN_BYPASS = "C17:streamreader:bypass-stale-position"
@@ -719,6 +719,369 @@ def real_reader_cross_check(ctx, count):
     return bad
 
 
+# --------------------------------------------------------------------------- icecast, producer side in detail
+
+SPIN_KEY = "C17:icecast:end-of-body-spins-tail-lost"
+OVERREAD_KEY = "C17:icecast:readall-overreads-on-short-read"
+SPIN_LIMIT = 40            # consecutive empty raw.read() results after the end of the body = the loop spins
+RAW_CALL_LIMIT = 20000     # hard guard on the number of raw.read() calls of one case
+
+
+class Spins(Exception):
+    pass
+
+
+def name_byte(n):
+    """Wire value of a named byte (see Model.v name_value)."""
+    if n < 1000:
+        return (16 + n) % 256
+    if n < 2000:
+        return n - 1000
+    return 240 + (n - 2000)
+
+
+def byte_name(b):
+    if b < 16:
+        return 1000 + b
+    if b < 240:
+        return b - 16
+    return 2000 + (b - 240)
+
+
+def ice2_body(case):
+    """The HTTP body as a list of names: audio in intervals of `meta` bytes, each complete interval
+    followed by a length byte and a metadata block of 16*length bytes (lengths cycle through case['metas'])."""
+    audio, meta = case["audio"], case["meta"]
+    assert audio <= 200
+    if not meta:
+        return list(range(audio))
+    out, i, k = [], 0, 0
+    while i < audio:
+        n = min(meta, audio - i)
+        out += list(range(i, i + n))
+        i += n
+        if n == meta and not (i >= audio and case.get("cut_after_audio")):
+            ln = case["metas"][k % len(case["metas"])]
+            k += 1
+            out.append(1000 + ln)
+            out += [2000 + j for j in range(16 * ln)]
+    return out
+
+
+def ice2_complete_audio(case):
+    """Audio bytes in complete frames of the body (interval + length byte + metadata block all present)."""
+    audio, meta = case["audio"], case["meta"]
+    if not meta:
+        return audio
+    full = audio // meta
+    if full and audio % meta == 0 and case.get("cut_after_audio"):
+        full -= 1
+    return full * meta
+
+
+def run_ice2(case):
+    """Drive the REAL _download_stream synchronously: requests.get returns a fake response whose
+    raw.read(n) serves the body with scripted short reads; the reader side (read/seek/protect) is
+    executed at the download loop's waiting points.  Guards: the fake raw raises after SPIN_LIMIT
+    empty reads in a row (the spinning _readall) and after RAW_CALL_LIMIT calls in total."""
+    A = audio_source()
+    from pyatv.support.buffer import SemiSeekableBuffer
+    import miniaudio
+    from pyatv.exceptions import InvalidStateError
+    block, size, head, prot, meta = case["block"], case["size"], case["head"], case["prot"], case["meta"]
+    names = ice2_body(case)
+    body = bytes(name_byte(n) for n in names)
+    caps = list(case["caps"])
+    buf = SemiSeekableBuffer(size, seekable_headroom=head, protected_headroom=prot)
+    cli = object.__new__(A.PatchedIceCastClient)
+    cli.url = "http://verif.invalid/stream"
+    cli.error_message = None
+    cli._stop_stream = False
+    cli._buffer = buf
+    cli.BLOCK_SIZE = block
+    script = list(case["ops"])
+    ops, obs = [], []
+    st = {"i": 0, "q": 0, "ci": 0, "empties": 0, "calls": 0, "slice": False, "in_iter": False,
+          "consumer": False, "spin": False, "short": False}
+
+    def record(op, r):
+        if r[0] == "data":
+            r = ("data", rle([byte_name(b) for b in r[1]]))
+        ops.append(op)
+        obs.append({"res": r, "pos": buf.position, "size": buf.size, "rem": buf.remaining, "src": st["q"],
+                    "prot": bool(buf.protected_headroom), "stop": bool(cli._stop_stream), "spin": st["spin"],
+                    "short": st["short"]})
+
+    def consumer_op(op):
+        st["consumer"] = True
+        try:
+            if op[0] == "read":
+                n = op[1] if cli._stop_stream else min(op[1], len(buf))   # otherwise read() would wait for data
+                record(("read", n, None), ("data", bytes(cli.read(n))))
+            elif op[0] == "seek":
+                record(("seek", op[1], True), ("bool", bool(cli.seek(op[1], miniaudio.SeekOrigin.START))))
+            elif op[0] == "prot":
+                try:
+                    buf.protected_headroom = op[1]
+                    record(op, ("none",))
+                except InvalidStateError:
+                    record(op, ("raise",))
+        finally:
+            st["consumer"] = False
+
+    def consumer_until_download():
+        while True:
+            if st["i"] >= len(script):
+                raise StopDriver()
+            op = script[st["i"]]
+            st["i"] += 1
+            if op[0] == "download":
+                return
+            consumer_op(op)
+
+    class Lock:
+        def __enter__(self):
+            return self
+
+        def __exit__(self, *a):
+            if not st["consumer"]:            # the download loop has add()ed its chunk: iteration over
+                st["in_iter"] = False
+                record(("download",), ("none",))
+            return False
+
+    cli._buffer_lock = Lock()
+
+    class Raw:
+        headers = {"icy-metaint": str(meta)} if meta else {}
+
+        def read(self, n):
+            st["calls"] += 1
+            if st["calls"] > RAW_CALL_LIMIT:
+                raise ImplError("more than %d raw.read() calls" % RAW_CALL_LIMIT, None)
+            if not st["in_iter"]:             # first read of an iteration: the block fitted
+                if not st["slice"]:
+                    consumer_until_download()
+                st["slice"] = False
+                st["in_iter"] = True
+            k = min(n, len(body) - st["q"])
+            if k > 0:
+                cap = caps[st["ci"]] if st["ci"] < len(caps) else None
+                st["ci"] += 1
+                if cap is not None:
+                    if max(1, cap) < k:
+                        st["short"] = True           # fewer bytes than asked for although the body has them
+                    k = min(k, max(1, cap))
+                st["empties"] = 0
+            else:
+                if st["ci"] < len(caps) and n > 0:
+                    st["ci"] += 1
+                st["empties"] += 1
+                if st["empties"] > SPIN_LIMIT:
+                    raise Spins()
+            d = body[st["q"]:st["q"] + k]
+            st["q"] += k
+            return d
+
+    class Handle:
+        status_code = 200
+        reason = "OK"
+        headers = Raw.headers
+
+        def __init__(self):
+            self.raw = Raw()
+
+        def __enter__(self):
+            return self
+
+        def __exit__(self, *a):
+            return False
+
+    class Requests:
+        @staticmethod
+        def get(url, stream=True, timeout=None):
+            return Handle()
+
+    class Time:
+        @staticmethod
+        def monotonic():
+            return 0.0
+
+        @staticmethod
+        def sleep(x):
+            if st["consumer"]:
+                raise ImplError("read() waits although enough data is buffered or the stream has stopped", None)
+            if st["slice"]:
+                record(("download",), ("none",))     # the marker was used up by a failed fits()
+                st["slice"] = False
+            consumer_until_download()
+            st["slice"] = True
+
+    old = (A.requests, A.time)
+    A.requests, A.time = Requests, Time
+    try:
+        try:
+            cli._download_stream()
+            if st["slice"]:
+                pass
+        except StopDriver:
+            return ops, obs
+        except Spins:
+            st["spin"] = True
+            st["in_iter"] = False
+            record(("download",), ("none",))
+        # the download loop is over (returned or stuck for ever): the rest of the script runs without it
+        if st["slice"]:
+            # a marker was consumed but the loop ended instead of iterating: it is a no-op marker
+            record(("download",), ("none",))
+            st["slice"] = False
+        while st["i"] < len(script):
+            op = script[st["i"]]
+            st["i"] += 1
+            if op[0] == "download":
+                record(("download",), ("none",))
+            else:
+                consumer_op(op)
+    except ImplError:
+        raise
+    except Exception as ex:
+        raise ImplError("%s: %r after %d ops" % (type(ex).__name__, ex, len(ops)), ops)
+    finally:
+        A.requests, A.time = old
+    return ops, obs
+
+
+def oracle_ice2(case, ops, obs):
+    """What the reader gets must be exactly the audio bytes of the body, in order, once each; the end of the
+    stream may be signalled (_stop_stream with an empty buffer) only when all audio has been delivered, and
+    once the body has been read completely it must be signalled."""
+    audio = case["audio"]
+    c = 0
+    pending_seek = None
+    taint = None
+    short_seen = False
+
+    def fail(key, msg, i):
+        if taint is not None:
+            return (taint[0], taint[1] + "; then: " + msg, i)
+        return (key, msg, i)
+
+    for i, (op, ob) in enumerate(zip(ops, obs)):
+        t = op[0]
+        short_seen = ob["short"]
+        if case["meta"] and short_seen and taint is None:
+            taint = (OVERREAD_KEY, "op %d: a raw.read() in ICY mode returned fewer bytes than asked for; _readall asks for "
+                     "the full size again, returns more than it was asked for and the framing is lost" % i)
+        if t == "seek":
+            if ob["res"][1]:
+                if op[1] != c or pending_seek is not None:
+                    pending_seek = i
+                c = op[1]
+        elif t == "read":
+            runs = ob["res"][1]
+            total = sum(l for _, l in runs)
+            if total > op[1]:
+                return fail("C17:icecast:over-read", "read(%d) returned %d bytes" % (op[1], total), i)
+            if total:
+                if any(o >= 1000 for (o, l) in runs):
+                    if case["meta"] and short_seen and taint is None:
+                        taint = (OVERREAD_KEY, "short read in ICY mode: _readall asks for the full size again and returns "
+                                 "more than it was asked for; framing is lost")
+                    return fail("C17:icecast:metadata-leaks-into-audio",
+                                "read returned non-audio bytes %r (1000+v: length byte, 2000+i: metadata)" % (runs[:4],), i)
+                exp = [(c, total)]
+                if runs != exp or c + total > audio:
+                    if case["meta"] and short_seen and taint is None:
+                        taint = (OVERREAD_KEY, "short read in ICY mode: _readall over-reads; framing is lost")
+                    if pending_seek is not None:
+                        return fail("C17:icecast:seek-true-not-repositioned", "seek at op %d reported success; next read "
+                                    "returned %r, expected offset %d" % (pending_seek, runs[:3], c), i)
+                    first = runs[0][0]
+                    what = "lost-bytes" if first > c else ("duplicated-bytes" if first < c else "wrong-bytes")
+                    return fail("C17:icecast:%s" % what, "read returned %r, audio continues at offset %d" % (runs[:3], c), i)
+                pending_seek = None
+                c += total
+            elif op[1] > 0 and ob["stop"] and c < audio and not (ob["prot"] and ob["rem"] == 0) and pending_seek is None:
+                if case["meta"] and short_seen and taint is None:
+                    taint = (OVERREAD_KEY, "short read in ICY mode: _readall over-reads; framing is lost")
+                return fail("C17:icecast:premature-eof", "end of stream signalled (stopped, nothing buffered) at audio "
+                            "offset %d of %d" % (c, audio), i)
+    last = obs[-1] if obs else None
+    if last is not None and last["spin"]:
+        # The recorded finding explains exactly this: the loop never returns, the end is never signalled and
+        # what follows the last COMPLETE frame (interval + length byte + metadata) is never add()ed.
+        # Anything else that is missing is a loss of its own.
+        drained = case.get("complete") and last["size"] == 0 and pending_seek is None \
+            and not (last["prot"] and last["rem"] == 0)
+        if drained and c < ice2_complete_audio(case):
+            return fail("C17:icecast:lost-bytes", "download loop over, buffer drained, reader got %d audio bytes although "
+                        "%d were in complete frames" % (c, ice2_complete_audio(case)), len(obs) - 1)
+        if taint is not None:
+            return fail("C17:icecast:end-not-signalled", "the download loop never returns", len(obs) - 1)
+        return (SPIN_KEY, "the body has ended and _readall keeps reading b'' (icy-metaint %d): the download loop never "
+                "returns, _stop_stream is never set; reader got %d of %d audio bytes (complete frames hold %d)"
+                % (case["meta"], c, audio, ice2_complete_audio(case)), len(obs) - 1)
+    if last is not None and case.get("complete"):
+        # the script gave the download loop enough turns to read the whole body and drained the buffer
+        if last["src"] >= len(ice2_body(case)) and not last["stop"] and not last["spin"]:
+            return fail("C17:icecast:end-not-signalled", "the whole body was read but _stop_stream is not set", len(obs) - 1)
+        if (last["stop"] or last["spin"]) and last["size"] == 0 and c < audio and pending_seek is None \
+                and not (last["prot"] and last["rem"] == 0):
+            if case["meta"] and short_seen and taint is None:
+                taint = (OVERREAD_KEY, "short read in ICY mode: _readall over-reads; framing is lost")
+            key = "C17:icecast:premature-eof" if last["stop"] else "C17:icecast:lost-bytes"
+            return fail(key, "download loop over, buffer drained, reader got %d of %d audio bytes" % (c, audio), len(obs) - 1)
+    return None
+
+
+def c_obs2(ob):
+    return "mkobs2 (%s) %s %s %s %s %s %s" % (c_res(ob["res"]), cnum(ob["pos"]), cnum(ob["size"]), cnum(ob["rem"]),
+                                              cnum(ob["src"]), common.cbool(ob["stop"]), common.cbool(ob["spin"]))
+
+
+def c_iop2(op):
+    return "IDownload 0" if op[0] == "download" else c_iop(op)
+
+
+def coq_ice2_case(case, ops, obs):
+    return "(%s, %s, %s, %s, %s,\n  %s,\n  [%s],\n  [%s],\n  [%s])" % (
+        cnum(case["block"]), cnum(case["meta"]), cnum(case["size"]), cnum(case["head"]), common.cbool(case["prot"]),
+        c_data(rle(ice2_body(case))), "; ".join(c_optN(x) for x in case["caps"]),
+        "; ".join(c_iop2(o) for o in ops), "; ".join(c_obs2(o) for o in obs))
+
+
+def gen_ice2_case(rng, size, head, block, meta, exact):
+    audio = rng.choice([0, 1, block, 2 * block + 1, 3 * (meta or block), 3 * (meta or block) + 1,
+                        rng.randint(0, min(200, 6 * max(block, meta or 1) + 3))])
+    audio = min(audio, 200)
+    metas = [rng.choice([0, 0, 1]) for _ in range(rng.randint(1, 3))]
+    ncaps = 0 if exact else rng.randint(1, 40)
+    caps = [rng.choice([None, 1, 1, 2, max(1, block - 1), max(1, (meta or block) - 1), rng.randint(1, 8)])
+            for _ in range(ncaps)]
+    ops = []
+    for _ in range(rng.randint(0, 10)):
+        r = rng.random()
+        if r < 0.5:
+            ops.append(("download",))
+        elif r < 0.85:
+            ops.append(("read", rng.choice([1, 2, head, block, size, rng.randint(1, size + 1)])))
+        elif r < 0.95:
+            ops.append(("seek", rng.choice([0, 0, 1, head - 1, head, rng.randint(0, size)])))
+        else:
+            ops.append(("prot", rng.random() < 0.3))
+    # finish: rewind when possible, un-protect, then alternate download turns and draining reads until everything
+    # must have come through
+    physical = audio + (audio // meta) * 17 if meta else audio
+    turns = physical // 1 + 6 if not exact else physical // max(1, min(block, meta or block)) + 6
+    turns = min(turns, 3 * 230)
+    ops += [("seek", 0), ("prot", False)]
+    for _ in range(turns):
+        ops += [("download",), ("read", size)]
+    ops += [("download",), ("read", size), ("read", size)]
+    return {"kind": "ice2", "size": size, "head": head, "prot": rng.random() < 0.5, "block": block, "meta": meta,
+            "audio": audio, "metas": metas, "caps": caps, "cut_after_audio": rng.random() < 0.2,
+            "len": audio, "ops": ops, "complete": True}
+
+
 # --------------------------------------------------------------------------- generation
 
 SMALL = [(2, 1), (2, 2), (3, 1), (3, 2), (3, 3), (4, 2), (5, 3), (8, 4), (8, 8), (16, 4), (16, 16), (7, 1)]
@@ -830,6 +1193,14 @@ def exhaustive_cases(kind, size, head, prot, maxlen):
 
 # --------------------------------------------------------------------------- evaluation
 
+def run_any(case):
+    if case["kind"] == "ice":
+        return run_ice(case)
+    if case["kind"] == "ice2":
+        return run_ice2(case)
+    return run_impl(case)
+
+
 def evaluate(ctx, case, origin, coq_items):
     """Run one case: implementation, oracle, registration for the Coq comparison."""
     def on_alarm(signum, frame):
@@ -838,7 +1209,7 @@ def evaluate(ctx, case, origin, coq_items):
     old = signal.signal(signal.SIGALRM, on_alarm)
     signal.setitimer(signal.ITIMER_REAL, CASE_TIMEOUT)
     try:
-        ops, obs = run_ice(case) if case["kind"] == "ice" else run_impl(case)
+        ops, obs = run_any(case)
     except ImplError as ex:
         ctx.violation("C17:%s:exception" % KEY[case["kind"]], str(ex.args[0]), {"case": case})
         return
@@ -852,7 +1223,7 @@ def evaluate(ctx, case, origin, coq_items):
         coq_items.append((case, ops, obs))
         ctx.case(("ctor", case["size"], case["head"]), nontrivial=False)
         return
-    err = oracle(case, ops, obs)
+    err = oracle_ice2(case, ops, obs) if case["kind"] == "ice2" else oracle(case, ops, obs)
     if err:
         key, msg, idx = err
         ctx.violation(key, msg, {"case": case, "ops_executed": ops, "failing_op": idx,
@@ -864,8 +1235,8 @@ def evaluate(ctx, case, origin, coq_items):
     for op in ops:
         ctx.count("op:" + op[0])
     ctx.count("size:%s" % ("tiny" if case["size"] <= 16 else "medium" if case["size"] <= 1024 else "production"))
-    canon = (case["kind"], case["size"], case["head"], case["prot"], case["len"], case.get("block"),
-             tuple(map(tuple_deep, ops)))
+    canon = (case["kind"], case["size"], case["head"], case["prot"], case["len"], case.get("block"), case.get("meta"),
+             tuple_deep(case.get("caps", ())), tuple(map(tuple_deep, ops)))
     ctx.case(canon, nontrivial=nbytes > 0,
              sample={"kind": case["kind"], "size": case["size"], "headroom": case["head"], "protected": case["prot"],
                      "source_len": case["len"], "ops": [list(o) for o in ops[:14]],
@@ -881,24 +1252,24 @@ def tuple_deep(x):
 
 def coq_compare(ctx, all_items, per=700):
     items = []
-    ice = [c for c in all_items if c[0]["kind"] == "ice"]
-    coq_items = [c for c in all_items if c[0]["kind"] != "ice"] + ice      # ice cases go last, in files of their own
-    n_plain = len(coq_items) - len(ice)
-    bounds = list(range(0, n_plain, per)) + list(range(n_plain, len(coq_items), per))
-    for i in bounds:
-        is_ice = i >= n_plain
-        chunk = coq_items[i:min(i + per, len(coq_items) if is_ice else n_plain)]
-        hdr = ("From Coq Require Import List NArith. Import ListNotations.\n"
-               "From PV Require Import Common.Cases C17.Model.\nLocal Open Scope N_scope.\n")
-        if is_ice:
-            txt = hdr + ("Definition cases : list (N * N * N * bool * N * list iop * list obs) := [\n%s\n].\n"
-                         "Eval vm_compute in (bad_indices check_ice cases).\n"
-                         % ";\n".join(coq_ice_case(*c) for c in chunk))
-        else:
-            txt = hdr + ("Definition cases : list (kind * N * N * bool * N * list op * list obs) := [\n%s\n].\n"
-                         "Eval vm_compute in (bad_indices check_case cases).\n"
-                         % ";\n".join(coq_case(*c) for c in chunk))
-        items.append(("cases_%06d" % i, txt))
+    hdr = ("From Coq Require Import List NArith. Import ListNotations.\n"
+           "From PV Require Import Common.Cases C17.Model.\nLocal Open Scope N_scope.\n")
+    fams = [
+        ([c for c in all_items if c[0]["kind"] not in ("ice", "ice2")], coq_case, "check_case",
+         "kind * N * N * bool * N * list op * list obs", per),
+        ([c for c in all_items if c[0]["kind"] == "ice"], coq_ice_case, "check_ice",
+         "N * N * N * bool * N * list iop * list obs", per),
+        ([c for c in all_items if c[0]["kind"] == "ice2"], coq_ice2_case, "check_ice2",
+         "N * N * N * N * bool * data * list (option N) * list iop * list obs2", 120),
+    ]
+    coq_items = []
+    for fam, printer, fn, ty, n in fams:
+        for i in range(0, len(fam), n):
+            chunk = fam[i:i + n]
+            txt = hdr + ("Definition cases : list (%s) := [\n%s\n].\nEval vm_compute in (bad_indices %s cases).\n"
+                         % (ty, ";\n".join(printer(*c) for c in chunk), fn))
+            items.append(("cases_%06d" % len(coq_items), txt))
+            coq_items.extend(chunk)
     res = common.coq_run_many(items, ctx.pid, timeout=900, par=14)
     nbad = 0
     for name, (rc, out) in sorted(res.items()):
@@ -956,6 +1327,18 @@ def run(ctx):
         if j % 10 == 9:
             meta = rng.choice([block + 1, 2 * block - 1, min(size, 2 * block)])      # the recorded finding
         case = gen_ice_case(rng, size, head, block, meta, rng.randint(2, 14))
+        evaluate(ctx, case, "generated", coq_items)
+    # 5. the REAL _download_stream with scripted short reads of the HTTP body, with and without icy-metaint
+    ice2_plan = [(8, 4, 2), (8, 3, 3), (8, 4, 4), (16, 8, 4), (16, 4, 5), (64, 32, 8), (64, 16, 16), (7, 1, 1)]
+    for j in range(360 * mult):
+        size, head, block = ice2_plan[j % len(ice2_plan)]
+        sel = j % 10
+        if sel < 5:          # no icy-metaint: arbitrary short reads (1 byte, n-1, exact)
+            case = gen_ice2_case(rng, size, head, block, 0, exact=(sel == 0))
+        elif sel < 8:        # icy-metaint, exact reads, empty and non-empty metadata blocks
+            case = gen_ice2_case(rng, size, head, block, rng.choice([1, 2, block - 1, block, block]) or 1, exact=True)
+        else:                # icy-metaint with short reads (recorded findings)
+            case = gen_ice2_case(rng, size, head, block, rng.choice([2, block - 1, block, block]) or 1, exact=False)
         evaluate(ctx, case, "generated", coq_items)
     # constructor guard
     for (size, head) in ((1, 2), (0, 1), (4, 5)):
@@ -1015,7 +1398,7 @@ def replay(ctx, path):
         return 1
     case = case_from_json(r["case"])
     try:
-        ops, obs = run_ice(case) if case["kind"] == "ice" else run_impl(case)
+        ops, obs = run_any(case)
     except ImplError as ex:
         print("implementation raised:", ex.args[0])
         return 1
@@ -1024,10 +1407,13 @@ def replay(ctx, path):
         return 0
     print("%s size=%d headroom=%d protected=%s source_len=%d%s" % (
         KEY[case["kind"]], case["size"], case["head"], case["prot"], case["len"],
-        " BLOCK_SIZE=%d icy-metaint=%d" % (case["block"], case["meta"]) if case["kind"] == "ice" else ""))
+        " BLOCK_SIZE=%d icy-metaint=%d" % (case["block"], case["meta"]) if case["kind"] in ("ice", "ice2") else ""))
+    if case["kind"] == "ice2":
+        print("  body (0..: audio offset, 1000+v: length byte, 2000+i: metadata): %r  short-read script: %r"
+              % (rle(ice2_body(case)), case["caps"]))
     for op, ob in zip(ops, obs):
         print("  %-28s -> %-40s position=%d size=%d remaining=%d taken-from-source=%d" % (
             op, ob["res"][1:] if len(ob["res"]) > 1 else ob["res"][0], ob["pos"], ob["size"], ob["rem"], ob["src"]))
-    err = oracle(case, ops, obs)
+    err = oracle_ice2(case, ops, obs) if case["kind"] == "ice2" else oracle(case, ops, obs)
     print("property-error=%s" % (err,))
     return 1 if err else 0
